@@ -1,10 +1,11 @@
 --------------------------- MODULE MC_TetraWeights ---------------------------
 (* one tetrahedron: every multiset of corner energies from CORNERS, every derivative order / evaluation branch, the Fermi
-   level scanning EFLO..EFHI (one transition per step).  With CORNERS a set of even numbers the scan visits the corners
+   level scanning EFLO1-1..EFHI (one transition per step).  With CORNERS a set of even numbers the scan visits the corners
    themselves and the half-way points. *)
 EXTENDS TetraWeights
-CONSTANTS CORNERS, EFLO, EFHI
+CONSTANTS CORNERS, EFLO1, EFHI     \* EFLO1 = lowest Fermi level + 1 (cfg files cannot hold negative numbers)
 VARIABLES e, ef, der, acc, admissible, welldef, w, closed
+EFLO == EFLO1 - 1
 vars == <<e, ef, der, acc, admissible, welldef, w, closed>>
 
 SortedCorners == {s \in [1..4 -> CORNERS] : \A k \in 1..3 : s[k] <= s[k + 1]}
